@@ -68,7 +68,7 @@ func runC14(cx *Ctx, r *Report) {
 			}
 		case "nft.Mint":
 			// FailGuard(MintRestricted true) with the creator comparison on the way to the failure exit
-			why, ok := w.pathGuardAny(ev.Fr, ev.Site, guardAlt{false, []string{".MintRestricted"}}, guardAlt{false, []string{".Creator", "!=", signers[0]}}, guardAlt{true, []string{".Creator", "==", signers[0]}})
+			why, ok := w.pathGuardAny(ev.Fr, ev.Site, guardAlt{Value: false, Subs: []string{".MintRestricted"}}, guardAlt{Value: false, Subs: []string{".Creator", "!=", signers[0]}}, guardAlt{Value: true, Subs: []string{".Creator", "==", signers[0]}})
 			r.check(ok, "mint-restriction", key, pos, "path-sensitive guard: "+why,
 				"Mint reachable without the MintRestricted ∧ creator≠signer rejection on chain "+ev.Fr.String())
 			// the class of the restriction test is the minted class
